@@ -39,7 +39,7 @@ pub fn suffixed_words(l: L) -> Vec<String> {
 
 impl C05 {
     pub fn new(tier: Tier) -> C05 {
-        let sets = hl_sets(&Bounds { t: tier.pick(5, 6), q: tier.pick(4, 5), words: tier.pick(2, 3), corpus: true, pairs: false, fams: vec![1, 2, 4, 6] });
+        let sets = hl_sets(&Bounds { t: tier.pick(5, 6), q: tier.pick(4, 5), words: tier.pick(2, 3), corpus: true, pairs: false, fams: vec![1, 2, 4, 6, 7] });
         let mut prefix_sets = Vec::new();
         let mut corpus = corpus_en_words();
         corpus.extend(corpus_ecommerce_tokens());
